@@ -111,6 +111,18 @@ def coq_make(targets=None):
         return rc, out
 
 
+def coq_stale(modules):
+    """Modules (e.g. 'C20.Props') whose .vo is missing or out of date after the build (stale .vo files must not count)."""
+    bad = []
+    with Lock(".coq.lock", COQ):
+        for m in modules:
+            tgt = "theories/" + m.replace(".", "/") + ".vo"
+            rc, out = sh("make -q %s" % tgt, cwd=COQ, timeout=300)
+            if rc != 0 or not os.path.exists(os.path.join(COQ, tgt)):
+                bad.append(m)
+    return bad
+
+
 def forbidden_scan():
     hits = []
     for f in glob.glob(os.path.join(COQ, "theories", "**", "*.v"), recursive=True):
@@ -356,7 +368,15 @@ def main(argv):
     if hits:
         broken.append({"what": "forbidden construct in the Coq development", "detail": hits[:20]})
     # 2. obligations: the property theorems and their assumptions, re-checked from the compiled library
+    mods = [m for m, _ in cfg["theorems"]] + list(cfg.get("check_modules", []))
+    stale = coq_stale(mods)
+    for m in stale:
+        broken.append({"what": "Coq module %s (or something it depends on) does not compile any more" % m,
+                       "detail": [l for l in mout.splitlines() if "Error" in l or l.startswith("File ")][-20:]})
     thms = print_assumptions(pid, cfg["theorems"], workdir)
+    for t in thms:
+        if t["module"] in stale:
+            t["ok"] = False
     for t in thms:
         if not t["ok"]:
             broken.append({"what": "theorem %s.%s does not check or depends on a non-allowed axiom" % (t["module"], t["name"]),
